@@ -53,7 +53,7 @@ Print Assumptions C04_never_shared.
 Definition ex_c : scfg := mkSCfg V2 1 0 true.
 Example C04_nonvacuous :
   exists y, yrun ex_c (yinit ex_c [(0, 1); (0, 1)])
-    [YInst 0 (SAStart true); YInst 1 (SAStart true); YInst 0 SILoopProvision; YInst 1 SILoopProvision;
+    [YInst 0 (SAStart true); YInst 1 (SAStart true); YInst 0 SILoopProvision; YInst 0 SICreateRet; YInst 1 SILoopProvision; YInst 1 SICreateRet;
      YInst 0 (SAGiveMe 1); YInst 1 (SAGiveMe 1); YInst 0 (SILease 0); YDecide 0; YTime (2 * sec); YReturn 0;
      YInst 1 (SILease 0); YDecide 1; YReturn 1; YTime (15 * sec); YInst 0 (SIExpire 0);
      YInst 1 (SILease 0); YDecide 1; YReturn 1] = Some y
